@@ -26,6 +26,7 @@ type Pkg struct {
 	Funcs   map[string]*ast.FuncDecl
 	Flags   map[string]bool
 	SrcHash map[string]string // func key -> hash of printed body
+	Closures map[string]*Closure // "<Func>$<var>" -> local closure (closures.go)
 }
 
 type chainImporter struct {
@@ -125,7 +126,7 @@ func (l *Loader) LoadDir(dir, pkgPath, display string, only []string) (*Pkg, err
 		return nil, fmt.Errorf("type errors in %s: %s", dir, strings.Join(terrs, "; "))
 	}
 	l.imp.known[pkgPath] = tp
-	p := &Pkg{Name: display, Dir: dir, Fset: l.Fset, Files: files, Info: info, Types: tp, Funcs: map[string]*ast.FuncDecl{}, SrcHash: map[string]string{}}
+	p := &Pkg{Name: display, Dir: dir, Fset: l.Fset, Files: files, Info: info, Types: tp, Funcs: map[string]*ast.FuncDecl{}, SrcHash: map[string]string{}, Closures: map[string]*Closure{}}
 	for _, f := range files {
 		for _, d := range f.Decls {
 			fd, ok := d.(*ast.FuncDecl)
@@ -133,6 +134,10 @@ func (l *Loader) LoadDir(dir, pkgPath, display string, only []string) (*Pkg, err
 				continue
 			}
 			p.Funcs[funcKey(fd)] = fd
+			for ck, c := range findClosures(fd, funcKey(fd)) {
+				p.Closures[ck] = c
+				p.Funcs[ck] = &ast.FuncDecl{Name: ast.NewIdent(ck), Type: c.Lit.Type, Body: c.Lit.Body}
+			}
 			// "<Func>$lit": the function literal returned by <Func> (option constructors), verifiable on its own
 			if fd.Body != nil && fd.Recv == nil {
 				for _, st := range fd.Body.List {
